@@ -67,6 +67,9 @@ DATASET_TEMPLATES = [
     ("{a}[filter Me_1 > {s} * 2 - {t}]", "S", {"a": "clause-operand", "s": "clause-expr", "t": "clause-expr"}),
     ("between({a}, {s} - 1, {t} + 1)", "X", {"a": "direct", "s": "direct-scalar-expr", "t": "direct-scalar-expr"}),
     ("if {a}#Me_1 > {s} + {t} then {b} else {a}", "S", {"a": "membership", "s": "direct-scalar-expr", "t": "direct-scalar-expr", "b": "direct"}),
+    ("udo_add({a} * 2, {b}[filter Me_1 > {s}])", "S", {"a": "udo-dataset-arg-expr", "b": "udo-dataset-arg-expr", "s": "clause"}),
+    ("udo_scale({a} + {b}, {s})", "S", {"a": "udo-dataset-arg-expr", "b": "udo-dataset-arg-expr", "s": "udo-scalar-arg"}),
+    ("exists_in({a}[filter Me_1 > {s}], {b} + {c}, all)", "X", {"a": "clause-operand", "s": "clause", "b": "direct", "c": "direct"}),
     ("round({a} / 3, {k})", "S", {"a": "direct"}),
     ("abs({a}) + abs({b})", "S", {"a": "direct", "b": "direct"}),
     ("power({a}, {s})", "S", {"a": "direct", "s": "direct-scalar"}),
